@@ -1,5 +1,5 @@
 #!/bin/bash
-# tools/revert_fixes.sh [-j N]
+# tools/revert_fixes.sh [-j N] [commit ...]   (no commits named: all; VERIF_SNAP: frozen copy of /verif to run from)
 # For every "fixed" entry of known_findings.json: scratch worktree of /repo HEAD with that
 # fix commit reverted (git revert --no-commit), then the property's quick check against it.
 # The defect must be reported again (exit 1). One line per entry:
@@ -8,6 +8,8 @@ set -u
 V=$(cd "$(dirname "$0")/.." && pwd)
 J=2
 if [ "${1:-}" = "-j" ]; then J=$2; shift 2; fi
+ONLY="$*"
+C=${VERIF_SNAP:-$V}
 one() {
 	prop=$1; commit=$2
 	W=$(mktemp -d /var/tmp/verif-revert-XXXXXX)
@@ -17,7 +19,7 @@ one() {
 		echo "$prop $commit: CONFLICT"; return
 	fi
 	mkdir -p "$W/ev" "$W/rp"
-	out=$(VERIF_REPO="$W/tree" VERIF_EVIDENCE_DIR="$W/ev" VERIF_REPLAY_DIR="$W/rp" VERIF_BUDGET_S=${VERIF_BUDGET_S:-40} "$V/check" "$prop" quick 2>&1)
+	out=$(VERIF_REPO="$W/tree" VERIF_EVIDENCE_DIR="$W/ev" VERIF_REPLAY_DIR="$W/rp" VERIF_BUDGET_S=${VERIF_BUDGET_S:-40} "$C/check" "$prop" quick 2>&1)
 	rc=$?
 	case $rc in
 	1) echo "$prop $commit: DETECTED $(echo "$out" | grep -B1 '^VIOLATION' | head -1 | cut -c1-160)" ;;
@@ -25,12 +27,12 @@ one() {
 	*) echo "$prop $commit: ERROR rc=$rc $(echo "$out" | tail -2 | cut -c1-200)" ;;
 	esac
 }
-export -f one; export V
-python3 - "$V/known_findings.json" <<'PY' | xargs -P "$J" -L1 bash -c 'one $0 $1' | tee "$V/seeded/.last-revert-fixes.txt"
+export -f one; export V C
+python3 - "$V/known_findings.json" $ONLY <<'PY' | xargs -P "$J" -L1 bash -c 'one $0 $1' | tee "$V/seeded/.last-revert-fixes.txt"
 import json,sys
 seen=set()
 for f in json.load(open(sys.argv[1]))['findings']:
-    if f['status']=='fixed' and (f['property'],f['commit']) not in seen:
+    if f['status']=='fixed' and (f['property'],f['commit']) not in seen and (len(sys.argv)<3 or f['commit'] in sys.argv[2:]):
         seen.add((f['property'],f['commit'])); print(f['property'], f['commit'])
 PY
 ! grep -qE ': (missed|ERROR)' "$V/seeded/.last-revert-fixes.txt"
